@@ -281,6 +281,52 @@ func runFIOInfo(c *Ctx) {
 	}
 }
 
+// runFIOVersions: header version h x Catalog.Version c (unset and all nine values), with classic
+// tables and with cross-reference streams.  The Writer refuses a catalog /Version before PDF 1.4;
+// otherwise the file must read back with MetaInfo.Version = max(h, c) and Catalog.Version = c.
+func runFIOVersions(c *Ctx) {
+	r := c.R.Fork()
+	for h := 1; h <= 9; h++ {
+		for cv := 0; cv <= 9; cv++ {
+			for _, human := range []bool{false, true} {
+				p := &fioProg{version: pdf.Version(h), human: human, seekable: r.Bool(), catVersion: pdf.Version(cv),
+					ops: []fioOp{{kind: 'A', same: -1, userLen: -1}, {kind: 'P', ref: pdf.NewReference(2, 0), obj: pdf.Integer(int64(10*h + cv)), same: -1, userLen: -1}}}
+				res := fioExec(p, nil)
+				text := p.String()
+				c.Case(text, cv != 0)
+				switch {
+				case cv == 0:
+					c.Stat("version_catalog_unset")
+				case cv < h:
+					c.Stat("version_catalog_below_header")
+				case cv == h:
+					c.Stat("version_catalog_equal_header")
+				default:
+					c.Stat("version_catalog_above_header")
+				}
+				if cv != 0 && pdf.Version(h) < pdf.V1_4 {
+					// the /Version entry of the catalog exists from PDF 1.4 on: Close must refuse
+					if res.failedAt == len(p.ops) && !res.panicked {
+						c.Stat("version_catalog_refused_before_1_4")
+					} else {
+						c.Violate("file-roundtrip", "catalog-version-not-refused", fmt.Sprintf("header version %v with Catalog.Version %v: Close returned %v (failedAt %d)", p.version, p.catVersion, res.err, res.failedAt), text)
+					}
+					continue
+				}
+				fioRunOneProg(c, res, 0, false)
+				if res.failedAt != -1 {
+					continue
+				}
+				// the rule of the reader: effective version = max(header, catalog)
+				if rd, err := fioReopen(res); err == nil {
+					c.Emit(fmt.Sprintf("FIO effver %d %d", h, cv), fmt.Sprintf("ok %d", int(rd.GetMeta().Version)))
+				}
+			}
+		}
+	}
+}
+
 func init() {
+	addRun("C02", "versions: header version h x Catalog.Version c for all pairs over the nine versions incl. unset (c < h, c = h, c > h), HumanReadable on/off (classic tables and cross-reference streams); a catalog /Version before PDF 1.4 must be refused by Close; otherwise the file is reopened: MetaInfo.Version = max(h, c), Catalog.Version = c, everything else as for every program, and the reader model's effectiveVersion agrees.  Non-trivial: Catalog.Version set; distinct by program text.", runFIOVersions)
 	addRun("C02", "Info dictionaries: every field of pdf.Info (Title, Author, Subject, Keywords, Creator, Producer, CreationDate, ModDate, Trapped, Custom) alone with every test value (PDFDocEncoding, UTF-16, string syntax, EOLs, a text starting with U+00FE U+00FF, 400 characters; dates with sub-second parts and zone offsets -12h … +14h, +05'45, -09'30; Trapped true/false; one to three custom keys incl. names that need escaping), the two dates in every presence combination, all set, none set, then random subsets; x 9 versions x HumanReadable x sinks x encryption; the file is reopened with pdf.NewReader and meta.Info compared field by field (dates at second / minute-offset precision); unset fields must stay unset, an empty Info must not be written; /Trapped before PDF 1.3 must be refused.  Non-trivial: at least one field set; distinct by program text.", runFIOInfo)
 }
